@@ -59,6 +59,32 @@ Theorem C15_timeout_prefix_noscan :
     exists later, o_events (run_scan c Never inp sc) = o_events (run_scan c (TimeoutAt j) inp sc) ++ later.
 Proof. exact timeout_prefix_noscan. Qed.
 
+(* List API, same configurations: the rules returned with the Timeout error are a prefix of the rules of
+   the complete scan, provided the timeout does not fire while global rules are evaluated, in the
+   first pass or in the full pass that follows an undecided first pass. *)
+Theorem C15_timeout_rules_prefix_noscan :
+  forall c j inp sc,
+    c_cb c = false -> can_noscan c = true -> 1 <= j ->
+    wf_scanner inp sc = true -> ns_bound (s_nns sc) (s_globals sc) -> ns_bound (s_nns sc) (s_rules sc) ->
+    nchecks (fst (pass1_globals c Never inp sc s_init)) < j ->
+    (nchecks (pass2_start c inp sc) < j ->
+     j <= nchecks (pass2_start c inp sc) + i_ac_checks inp
+     \/ nchecks (fst (scan_p01 c Never inp sc (pass2_start c inp sc))) < j) ->
+    exists more, o_rules (run_scan c Never inp sc) = o_rules (run_scan c (TimeoutAt j) inp sc) ++ more.
+Proof. exact timeout_rules_prefix_noscan. Qed.
+
+Example C15_noscan_rules_example :
+  let c := {| c_full := false; c_nm := false; c_cb := false; c_ev_match := true; c_ev_nomatch := false;
+              c_ev_import := false; c_ev_limit := false; c_direct := true; c_frag_noscan := false |} in
+  can_noscan c = true /\ wf_scanner kf15n_inputs kf15n_scanner = true
+  /\ nchecks (fst (pass1_globals c Never kf15n_inputs kf15n_scanner s_init)) = 0
+  /\ nchecks (pass2_start c kf15n_inputs kf15n_scanner) = 2
+  /\ map er_id (o_rules (run_scan c (TimeoutAt 2) kf15n_inputs kf15n_scanner)) = [0]
+  /\ map er_id (o_rules (run_scan c Never kf15n_inputs kf15n_scanner)) = [0; 1]
+  /\ map er_id (o_rules (run_scan c (TimeoutAt 4) kf15n_inputs kf15n_scanner)) = []
+  /\ map er_id (o_rules (run_scan c (TimeoutAt 5) kf15n_inputs kf15n_scanner)) = [0].
+Proof. vm_compute. repeat split. Qed.
+
 (* ... and the second proviso is needed on the current tree (recorded finding
    C15-noscan-timeout-flush-order): the handler flushes the rules decided in the first pass although
    the complete scan delivers the match-limit event before them. *)
@@ -91,5 +117,6 @@ Print Assumptions C15_timeout_prefix.
 Print Assumptions C15_timeout_rules_prefix.
 Print Assumptions C15_timeout_in_globals_refuted.
 Print Assumptions C15_timeout_prefix_noscan.
+Print Assumptions C15_timeout_rules_prefix_noscan.
 Print Assumptions C15_noscan_flush_order_refuted.
 Print Assumptions C15_simulation_full_scan.
